@@ -634,6 +634,8 @@ def run(ctx):
             stream.append(("trap_name_collision_shape", collision_def(rng)))
         elif i % 10 == 2:
             stream.append(("shaped_mutable_mode", shaped_def(rng)))
+        elif i % 10 == 5:
+            stream.append(("stray_rows", gen.add_dfa_stray_rows(rng, gen.rand_dfa_def(rng))))
         elif r == 4 or r == 3:
             stream.append(("big", big_def(rng)))
         elif r == 0:
